@@ -1059,3 +1059,92 @@ def recipe_template(pieces):
     if pieces is None:
         return None, []
     return ''.join(p if isinstance(p, str) else '{}' for p in pieces), [p[1] for p in pieces if not isinstance(p, str)]
+
+
+# ---------------------------------------------------------------- which config field feeds which callee location
+def _cfg_field(t):
+    """name of the field of `self` (argument 1) a value is read from, through as_ref / clone / copied .. wrappers; else None"""
+    t = strip_refs(t)
+    for _ in range(6):
+        if is_call(t) and t[3] in ('as_ref', 'as_deref', 'clone', 'copied', 'cloned', 'as_mut', 'deref', 'to_owned', 'unwrap', 'expect') and t[2]:
+            t = strip_refs(t[2][0])
+        else:
+            break
+    if arg_root(t) == 1:
+        fn = field_names(t)
+        if fn:
+            return fn[-1]
+    return None
+
+
+def callsite_field_map(crate, caller, call_term):
+    """{callee location (param number, (field names..)): name of the caller's `self` field that value is read from} for one call:
+    arguments that are fields of self, structs built from such fields at the call site, and Option::map(field, |x| Struct{..})"""
+    m = {}
+
+    def collect(body, t, loc, depth=0):
+        t = strip_refs(mirlib.simplify(t))
+        if depth > 4 or not t:
+            return
+        f = _cfg_field(resolve_env(crate, body, t))
+        if f:
+            m[loc] = f
+            return
+        if t[0] == 'agg' and t[1].get('kind') == 'adt' and t[1].get('variant') in ('Some', 'Ok') and t[2]:
+            collect(body, t[2][0], loc, depth + 1)
+        elif t[0] == 'agg' and t[1].get('kind') == 'adt':
+            for fn_, o_ in zip(t[1].get('fields') or [], t[2]):
+                collect(body, o_, (loc[0], loc[1] + (fn_,)), depth + 1)
+        elif is_call(t) and t[3] == 'map' and 'Option' in t[1] and len(t[2]) == 2:
+            src = _cfg_field(resolve_env(crate, body, t[2][0]))
+            if src:
+                m[loc] = src
+            clo = strip_refs(t[2][1])
+            if clo and clo[0] == 'agg' and clo[1].get('def'):
+                try:
+                    cb = crate.body(re.compile('^' + re.escape(clo[1]['def']) + '$'))
+                except CheckError:
+                    return
+                for _, rt_ in mirlib.returned_terms(cb):
+                    rt_ = strip_refs(mirlib.simplify(rt_))
+                    if rt_ and rt_[0] == 'agg' and rt_[1].get('kind') == 'adt':
+                        for fn_, o_ in zip(rt_[1].get('fields') or [], rt_[2]):
+                            o2 = strip_refs(resolve_env(crate, cb, o_))
+                            if arg_root(o2) == 2 and cb.kind == 'closure' and src:
+                                m[(loc[0], loc[1] + (fn_,))] = src
+                            else:
+                                collect(cb, o_, (loc[0], loc[1] + (fn_,)), depth + 1)
+        elif t[0] == 'phi':
+            for a_ in t[1]:
+                collect(body, a_, loc, depth + 1)
+    for i, a in enumerate(call_term['args']):
+        collect(caller, caller.origin(a), (i + 1, ()))
+    return m
+
+
+def callee_loc(term):
+    """(param number, (field names..)) of a value inside the callee, looking through refs, variant projections (`x as Some`) and
+    their payload index — the counterpart of callsite_field_map's keys"""
+    t = term
+    fields = []
+    for _ in range(16):
+        if not isinstance(t, tuple) or not t:
+            return None
+        if t[0] in ('ref', 'deref'):
+            t = t[1]
+        elif t[0] == 'variant':
+            t = t[1]
+        elif t[0] == 'field':
+            if isinstance(t[1], tuple) and t[1] and t[1][0] == 'variant':
+                t = t[1]  # the payload index of an enum variant is not a struct field
+            else:
+                if isinstance(t[2], str):
+                    fields.append(t[2])
+                t = t[1]
+        elif t[0] == 'discr':
+            t = t[1]
+        elif t[0] == 'arg':
+            return (t[1], tuple(reversed(fields)))
+        else:
+            return None
+    return None
